@@ -105,12 +105,6 @@ Proof.
 Qed.
 Lemma chunks_length {A} k d (l : list A) : length (chunks k d l) = d.
 Proof. revert l. induction d as [|d IH]; intros l; [reflexivity|]. cbn [chunks length]. rewrite IH. reflexivity. Qed.
-Lemma chunks_len_each {A} k d : forall (l : list A), length l = (d * k)%nat -> Forall (fun ch => length ch = k) (chunks k d l).
-Proof.
-  induction d as [|d IH]; intros l Hl; cbn [chunks]; constructor.
-  - rewrite firstn_length. cbn in Hl. lia.
-  - apply IH. rewrite skipn_length. cbn in Hl. lia.
-Qed.
 Lemma chunks_concat {A} k d : forall (l : list A), length l = (d * k)%nat -> concat (chunks k d l) = l.
 Proof.
   induction d as [|d IH]; intros l Hl; cbn [chunks concat].
@@ -136,19 +130,6 @@ Lemma shape_items_run dims : forall st, run_all (map int_clo dims) st = Ok (shap
 Proof.
   induction dims as [|d dims IH]; intros st; [reflexivity|]. cbn [map run_all shape_items]. unfold int_clo at 1.
   destruct (int_obj d st) as [i st1]. cbn [bind]. rewrite IH. destruct (shape_items dims st1) as [rest st2]. reflexivity.
-Qed.
-
-(* the shape of an array that satisfies shape_okb, as naturals *)
-Lemma shape_ok_nat shape n : shape_okb shape n = true ->
-  Forall (fun d => (0 <= d)%Z) shape /\ map Z.of_nat (map Z.to_nat shape) = shape /\ n = nprod (map Z.to_nat shape).
-Proof.
-  unfold shape_okb. intros H. apply andb_prop in H. destruct H as [H1 H2]. apply Z.eqb_eq in H2.
-  assert (Hf : Forall (fun d => (0 <= d)%Z) shape).
-  { rewrite forallb_forall in H1. apply Forall_forall. intros d Hd. apply Z.leb_le. apply H1. exact Hd. }
-  split; [exact Hf|]. split.
-  - clear -Hf. induction Hf as [|d l Hd Hl IH]; [reflexivity|]. cbn [map]. rewrite IH, Z2Nat.id by exact Hd. reflexivity.
-  - apply Nat2Z.inj. rewrite <- H2. clear -Hf. induction Hf as [|d l Hd Hl IH]; [reflexivity|].
-    cbn [map nprod zprod]. rewrite Nat2Z.inj_mul, <- IH, Z2Nat.id by exact Hd. reflexivity.
 Qed.
 
 Lemma Forall2_len2 {A B} (R : A -> B -> Prop) a b : Forall2 R a b -> length a = length b.
